@@ -1412,6 +1412,28 @@ def c02_cases(ctx, rng=None):
                         c = mut if side == "c" else streams["c"]
                         s = mut if side == "s" else streams["s"]
                         cases.append((case_line("sz%d%s%d_%d_%d" % (ci, side, off, v, tail), c, s, ct=tail, st=tail, order="cs"), what, len(c) + len(s)))
+    # two size fields at once (an outer and an inner declared size both far beyond the bytes present): every pair of the size
+    # fields of the conversation with a table of every field type, both set to the largest positive value of their width
+    conv = convs[-1]
+    for side in "cs":
+        data = conv.stream(side)
+        fields = conv.size_fields(side)
+        pairs = [(a, b) for i, a in enumerate(fields) for b in fields[i + 1:]]
+        wide = [p_ for p_ in pairs if p_[0][1] >= 4 and p_[1][1] >= 4]          # all pairs of 32-bit sizes (frame, table, array, long string, bytes)
+        rest = [p_ for p_ in pairs if not (p_[0][1] >= 4 and p_[1][1] >= 4)]
+        if len(wide) > (600 if quick else 6000):
+            wide = rng.sample(wide, 600 if quick else 6000)
+        pairs = wide + rng.sample(rest, min(len(rest), 100 if quick else 2000))
+        for (o1, w1, what1), (o2, w2, what2) in pairs:
+            mut = bytearray(data)
+            if o1 > o2:
+                (o1, w1), (o2, w2) = (o2, w2), (o1, w1)
+            # the earlier (possibly enclosing) field gets the largest positive value, the later one a large value below it
+            mut[o1:o1 + w1] = ((1 << (8 * w1 - 1)) - 1).to_bytes(w1, "big")
+            mut[o2:o2 + w2] = (1 << (8 * w2 - 4)).to_bytes(w2, "big")
+            c = bytes(mut) if side == "c" else conv.stream("c")
+            s_ = bytes(mut) if side == "s" else conv.stream("s")
+            cases.append((case_line("pair%s%d_%d" % (side, o1, o2), c, s_, ct=0, st=0, order="cs"), what1 + "+" + what2, len(c) + len(s_)))
     # many frame headers each declaring the cap, with nothing behind them; nested length fields
     for tail in (0, 1, 2):
         hdr = b"\x03\x00\x01" + CAP.to_bytes(4, "big")
